@@ -448,7 +448,8 @@ func runLDAP(srv *lab.Server, sc scenario) scnObs {
 		if a.DN && a.User != "" {
 			dn = "cn=" + a.User + ",dc=example,dc=com"
 		}
-		rep := rt(gen.LDAPBind(id, dn, a.Pass))
+		// both protocol versions the service advertises (supportedLDAPVersion 2 and 3), alternating per bind
+		rep := rt(gen.LDAPBindV(id, 2+id%2, dn, a.Pass))
 		ao.Made = true
 		rc := ldapResult(rep)
 		ao.Reply = fmt.Sprintf("resultCode=%d", rc)
